@@ -25,6 +25,7 @@ def run(ctx):
     ctx.each(r12e, ctx, repo)
     ctx.each(r12f, ctx, repo)
     ctx.each(r12g, ctx, repo)
+    ctx.each(r12h, ctx, repo)
 
 
 def r12a(ctx, repo):
@@ -313,3 +314,20 @@ def r12g(ctx, repo):
             except A.NotPolynomial:
                 ok = False
         ctx.check(ok, "R12g", fi, u[0] if u else fi.node, "%s: outcome += sum(weights * combination outcomes)" % nm, "the %s branch does not add sum(combination_coverage * combination outcomes) to the baseline" % nm, stmt_text="dot:%s" % nm)
+
+
+def r12h(ctx, repo):
+    ctx.rule("R12h", "outcome arithmetic is floating point: no array preallocated in Covout (np.zeros / np.empty / np.full / np.ones / np.array with dtype=...) takes its dtype from the inputs or narrows it - an integer-typed cache truncates an explicitly specified combination outcome such as 24.5 to 24")
+    ci = repo.cls("programs", "Covout")
+    n = 0
+    for name, fi in ci.methods.items():
+        for c in own_nodes(fi.node):
+            if isinstance(c, ast.Call) and ast.unparse(c.func) in ("np.zeros", "np.empty", "np.full", "np.ones", "np.array", "np.zeros_like", "np.ones_like", "np.full_like", "np.asarray"):
+                dt = astq.kwarg(c, "dtype")
+                if dt is None:
+                    continue
+                n += 1
+                ok = ast.unparse(dt) in ("float", "np.float64", "np.double", "'float'", "'float64'", "np.float_")
+                ctx.check(ok, "R12h", fi, enclosing_stmt(c), "`%s` is explicitly float" % ast.unparse(c)[:50], "`%s` allocates with dtype `%s`: when baseline and outcomes were entered as whole numbers the array is integer-typed and values assigned into it (explicit combination outcomes, weights) are truncated, so the result is no longer the weighted average of the specified outcomes" % (ast.unparse(c)[:70], ast.unparse(dt)))
+    ctx.extra["covout_dtype_arguments"] = n
+    ctx.ok("R12h", "atomica/programs.py", "%d explicit dtype arguments in Covout examined" % n)
